@@ -81,10 +81,13 @@ def make_workload(seed, n_records=None, max_records=24, fat=0.0, long_reads=None
     gaf_lines, fasta_lines, names = [], [], []
     prev = None
     any_long = False
+    same_read = rng.random() < 0.06  # several alignments of one read (same name, one FASTA entry)
+    read_name = None
     for i in range(n_records):
         name = "r%d" % i
         names.append(name)
-        if dup_records and prev is not None and rng.random() < 0.5:
+        reuse_name = same_read and prev is not None and rng.random() < 0.4
+        if reuse_name or (dup_records and prev is not None and rng.random() < 0.5):
             path, plen, ps, pe, read, qs, qe = prev
         elif long_reads and (rng.random() < 0.2 or (i == n_records - 1 and not any_long)):
             any_long = True
@@ -114,7 +117,8 @@ def make_workload(seed, n_records=None, max_records=24, fat=0.0, long_reads=None
             read = pre + q + suf
             qs, qe = len(pre), len(pre) + len(q)
             prev = (path, plen, ps, pe, read, qs, qe)
-        tags = ["NM:i:%d" % rng.randint(0, 9), "id:f:0.%d" % rng.randint(1, 99)]
+        # rn:i:<record number> identifies the record in the output (read names may repeat)
+        tags = ["rn:i:%d" % i, "NM:i:%d" % rng.randint(0, 9), "id:f:0.%d" % rng.randint(1, 99)]
         if fat and rng.random() < fat:
             # a long optional field is copied into the output record verbatim: result messages larger
             # than PIPE_BUF (4096), than Connection's 16 KiB header/body split and than the pipe itself
@@ -124,11 +128,14 @@ def make_workload(seed, n_records=None, max_records=24, fat=0.0, long_reads=None
         if rng.random() >= 0.08:
             tags.append("cg:Z:%d=" % max(1, qe - qs))
         # GraphAligner-style read names with a description after a space (the parser cuts it off)
-        gaf_name = name + (" len=%d/1" % len(read) if rng.random() < 0.08 else "")
+        if not reuse_name:
+            read_name = name
+        gaf_name = read_name + (" len=%d/1" % len(read) if rng.random() < 0.08 else "")
         gaf_lines.append(
             "\t".join([gaf_name, str(len(read)), str(qs), str(qe), "+", path, str(plen), str(ps), str(pe), str(qe - qs), str(max(qe - qs, pe - ps)), "60"] + tags)
         )
-        fasta_lines.append(">%s\n%s" % (name, read))
+        if not reuse_name:
+            fasta_lines.append(">%s\n%s" % (name, read))
     return {
         "seed": seed,
         "gfa": "\n".join(gfa_lines) + "\n",
@@ -140,7 +147,9 @@ def make_workload(seed, n_records=None, max_records=24, fat=0.0, long_reads=None
 
 
 def drop_records(wl, keep):
-    """Workload restricted to the records with indices in `keep` (renamed r0..), for shrinking."""
+    """Workload restricted to the records with indices in `keep` (renumbered 0..), for shrinking."""
+    import re
+
     gaf = wl["gaf"].splitlines()
     fa = wl["fasta"].split(">")[1:]
     reads = {}
@@ -148,12 +157,15 @@ def drop_records(wl, keep):
         nm, seq = ent.split("\n", 1)
         reads[nm] = seq.replace("\n", "")
     gl, fl, names = [], [], []
+    written = set()
     for new_i, i in enumerate(keep):
         cols = gaf[i].split("\t")
         old = cols[0].split(" ")[0]
-        cols[0] = "r%d" % new_i
+        if old not in written and old in reads:
+            fl.append(">%s\n%s" % (old, reads[old]))
+            written.add(old)
+        cols = [re.sub(r"^rn:i:\d+$", "rn:i:%d" % new_i, c) for c in cols]
         gl.append("\t".join(cols))
-        fl.append(">r%d\n%s" % (new_i, reads[old]))
         names.append("r%d" % new_i)
     return {
         "seed": wl.get("seed"),
